@@ -196,6 +196,9 @@ impl BinaryMatrix for DenseBinaryMatrix {
     fn get_row_iter(&self, row: usize, start_col: usize, end_col: usize) -> OctetIter<'_> {
         let (first_word, first_bit) = self.bit_position(row, start_col);
         let (last_word, _) = self.bit_position(row, end_col);
+        // When end_col == width is word aligned, its word lies one past this row, which for the
+        // last row may be past the end of the storage. The iterator never reads that word.
+        let last_word = last_word.min(self.elements.len() - 1);
         OctetIter::new_dense_binary(
             start_col,
             end_col,
